@@ -1,11 +1,19 @@
-"""Facts about Partition classes read from their class bodies and methods (C02.R6, C17)."""
+"""Facts about Partition classes read from their class bodies and methods (C02.R6, C17).
+
+Besides the class tables this module holds the small path machinery the C17 rules decide with:
+`walk` (acyclic paths of a function with their branch literals, disjunctive tests split into cases, every loop
+taken zero times or once), `entry_fields` (an index entry whichever way it is built: keyword / positional
+constructor call, `v._replace(...)`) and `duck_atoms` (the hasattr / getattr / isinstance facts a test states
+about one object, conjunction / `all(... for a in (...))` alike)."""
 import ast
+from collections import namedtuple
 
 from .. import astutil as A
 from .cache_model import self_attr
 
 STORE = "storage_base.DefaultCodec.PicklePartitionStrategy.store"
 PICKLE_PARTITION = "storage_base.DefaultCodec.PicklePartition"
+ENTRY_TYPE = "_ResultTypeAndContentKey"
 
 
 def partition_classes(ck):
@@ -23,9 +31,10 @@ def declared_attrs(ck, cls):
                 if isinstance(n, (ast.Assign, ast.AnnAssign)):
                     ts = n.targets if isinstance(n, ast.Assign) else [n.target]
                     for t in ts:
-                        f = self_attr(t)
-                        if f:
-                            out.add(f)
+                        for t1 in (t.elts if isinstance(t, (ast.Tuple, ast.List)) else [t]):
+                            f = self_attr(t1)
+                            if f:
+                                out.add(f)
     return out
 
 
@@ -43,14 +52,101 @@ def accessor_reads(ck, cls, names=("get", "list_keys", "__getitem__")):
     return out
 
 
+def _flat_targets(s):
+    """[(target, value or None)] of an assignment, tuple targets paired with the elements of a tuple value."""
+    out = []
+    if isinstance(s, ast.Assign):
+        tgs, val = s.targets, s.value
+    elif isinstance(s, ast.AnnAssign) and s.value is not None:
+        tgs, val = [s.target], s.value
+    else:
+        return out
+    for t in tgs:
+        if isinstance(t, (ast.Tuple, ast.List)):
+            vs = val.elts if isinstance(val, (ast.Tuple, ast.List)) and len(val.elts) == len(t.elts) else [None] * len(t.elts)
+            out += list(zip(t.elts, vs))
+        else:
+            out.append((t, val))
+    return out
+
+
 def store_writes_on_obj(fa):
     """Attributes of the stored object assigned inside PicklePartitionStrategy.store:
-    [(attr, stmt, guard-if or None)]"""
+    [(attr, stmt, guard-if or None)]  (`obj.a, obj.b = x, y` counts as two writes)"""
     out = []
-    for s in fa.stmts(ast.Assign):
-        for t in s.targets:
+    for s in fa.stmts((ast.Assign, ast.AnnAssign)):
+        for (t, _v) in _flat_targets(s):
             if isinstance(t, ast.Attribute) and isinstance(t.value, ast.Name) and t.value.id == "obj":
                 out.append((t.attr, s, fa.enclosing(s, ast.If)))
+    return out
+
+
+def write_value(stmt, attr, subject="obj"):
+    """The expression assigned to `<subject>.<attr>` by `stmt` (None when it cannot be told apart, e.g.
+    unpacking of a call result)."""
+    for (t, v) in _flat_targets(stmt):
+        if isinstance(t, ast.Attribute) and isinstance(t.value, ast.Name) and t.value.id == subject and t.attr == attr:
+            return v
+    return None
+
+
+# ---- duck-typing tests -------------------------------------------------------------------------------
+
+def _conj(test):
+    """Conjuncts of a test, `all(f(a) for a in (c1, c2))` / `all([f(c1), f(c2)])` unrolled."""
+    out = []
+    for a in A.conj_atoms(test):
+        if isinstance(a, ast.Call) and isinstance(a.func, ast.Name) and a.func.id == "all" and len(a.args) == 1 and not a.keywords:
+            g = a.args[0]
+            if isinstance(g, (ast.GeneratorExp, ast.ListComp)) and len(g.generators) == 1 and not g.generators[0].ifs \
+                    and isinstance(g.generators[0].target, ast.Name) and isinstance(g.generators[0].iter, (ast.Tuple, ast.List, ast.Set)) \
+                    and all(isinstance(e, ast.Constant) for e in g.generators[0].iter.elts):
+                var = g.generators[0].target.id
+                for c in g.generators[0].iter.elts:
+                    out += _conj(_subst(g.elt, var, c))
+                continue
+            if isinstance(g, (ast.Tuple, ast.List)):
+                for e in g.elts:
+                    out += _conj(e)
+                continue
+        out.append(a)
+    return out
+
+
+def _subst(expr, name, value):
+    import copy
+
+    class T(ast.NodeTransformer):
+        def visit_Name(self, n):
+            return copy.deepcopy(value) if n.id == name and isinstance(n.ctx, ast.Load) else n
+
+    return ast.fix_missing_locations(T().visit(copy.deepcopy(expr)))
+
+
+def duck_atom(a, subject):
+    """One atom of a test about `subject`: ('has', attr, holds-when-true) for hasattr(subject, 'a') and for
+    getattr(subject, 'a', None) is (not) None; ('isinstance', type text, True); None for anything else."""
+    if isinstance(a, ast.UnaryOp) and isinstance(a.op, ast.Not):
+        r = duck_atom(a.operand, subject)
+        return (r[0], r[1], not r[2]) if r else None
+    if isinstance(a, ast.Call) and A.call_attr(a) == "hasattr" and len(a.args) == 2 and A.norm(a.args[0]) == subject and A.const_str(a.args[1]):
+        return ("has", A.const_str(a.args[1]), True)
+    if isinstance(a, ast.Call) and A.call_attr(a) == "isinstance" and len(a.args) == 2 and A.norm(a.args[0]) == subject:
+        return ("isinstance", A.norm(a.args[1]), True)
+    if isinstance(a, ast.Compare) and len(a.ops) == 1 and isinstance(a.ops[0], (ast.IsNot, ast.Is)) and A.is_none(a.comparators[0]) \
+            and isinstance(a.left, ast.Call) and A.call_attr(a.left) == "getattr" and len(a.left.args) >= 2 and A.norm(a.left.args[0]) == subject \
+            and A.const_str(a.left.args[1]) and (len(a.left.args) == 2 or A.is_none(a.left.args[2])):
+        return ("has", A.const_str(a.left.args[1]), isinstance(a.ops[0], ast.IsNot))
+    return None
+
+
+def duck_attrs(test, subject):
+    """Attribute names a test requires `subject` to have (positive conjuncts only)."""
+    out = []
+    for a in _conj(test):
+        r = duck_atom(a, subject)
+        if r and r[0] == "has" and r[2]:
+            out.append(r[1])
     return out
 
 
@@ -58,20 +154,295 @@ def eval_duck_test(test, attrs, is_pickle_partition, subject):
     """Evaluate a hasattr/getattr/isinstance conjunction about `subject` against an attribute
     table.  -> True / False / None (unknown)."""
     vals = []
-    for a in A.conj_atoms(test):
+    for a in _conj(test):
         v = None
-        if isinstance(a, ast.Call) and A.call_attr(a) == "hasattr" and len(a.args) == 2 and A.norm(a.args[0]) == subject:
-            nm = A.const_str(a.args[1])
-            v = nm in attrs
-        elif isinstance(a, ast.Call) and A.call_attr(a) == "isinstance" and A.norm(a.args[0]) == subject:
-            v = is_pickle_partition if "PicklePartition" in A.norm(a.args[1]) else None
-        elif isinstance(a, ast.Compare) and len(a.ops) == 1 and isinstance(a.ops[0], ast.IsNot) and A.is_none(a.comparators[0]) \
-                and isinstance(a.left, ast.Call) and A.call_attr(a.left) == "getattr" and A.norm(a.left.args[0]) == subject:
-            nm = A.const_str(a.left.args[1])
-            v = True if nm in attrs else False  # declared => may be set after serialisation
+        r = duck_atom(a, subject)
+        if r and r[0] == "has":
+            # hasattr: declared; getattr(..) is not None: declared => may be set after serialisation
+            v = (r[1] in attrs) if r[2] else (None if r[1] in attrs else True)
+        elif r and r[0] == "isinstance":
+            v = is_pickle_partition if "PicklePartition" in r[1] else None
+            if v is not None and not r[2]:
+                v = not v
         vals.append(v)
     if any(v is False for v in vals):
         return False
     if all(v is True for v in vals):
         return True
     return None
+
+
+# ---- index entries ---------------------------------------------------------------------------------
+
+def entry_type_fields(ck):
+    """Field names of the in-memory index entry type, in declaration order."""
+    nt = ck.repo.module("storage_base").assigns.get(ENTRY_TYPE)
+    if isinstance(nt, ast.Call) and len(nt.args) > 1:
+        if isinstance(nt.args[1], (ast.List, ast.Tuple)):
+            return [A.const_str(e) for e in nt.args[1].elts if A.const_str(e)]
+        if A.const_str(nt.args[1]):
+            return A.const_str(nt.args[1]).replace(",", " ").split()
+    return []
+
+
+def entry_fields(call, fields):
+    """{field: expression} of an index entry built by `call`: the entry type called with keyword and / or
+    positional arguments, or `<entry>._replace(field=...)` (the remaining fields are those of <entry>).
+    None when `call` does not build an entry."""
+    if not isinstance(call, ast.Call) or any(k.arg is None for k in call.keywords) or any(isinstance(a, ast.Starred) for a in call.args):
+        return None
+    if A.call_attr(call) == ENTRY_TYPE:
+        out = {}
+        for f, a in zip(fields, call.args):
+            out[f] = a
+        for k in call.keywords:
+            out[k.arg] = k.value
+        return out if set(out) == set(fields) else None
+    if A.call_attr(call) == "_replace" and isinstance(call.func, ast.Attribute) and not call.args:
+        out = {}
+        for f in fields:
+            out[f] = ast.copy_location(ast.Attribute(value=call.func.value, attr=f, ctx=ast.Load()), call)
+        for k in call.keywords:
+            if k.arg not in fields:
+                return None
+            out[k.arg] = k.value
+        return out
+    return None
+
+
+def entries_in(node, fields):
+    """[(call, {field: expr})] for every entry construction inside `node`."""
+    out = []
+    for c in A.calls_in(node):
+        ef = entry_fields(c, fields)
+        if ef is not None:
+            out.append((c, ef))
+    return out
+
+
+# ---- paths -----------------------------------------------------------------------------------------
+
+# canonical text and its polarity; the atom as written and its polarity; the CFG node of the test; live = nothing
+# the atom mentions has been assigned since (a stale literal says nothing about the current values)
+Lit = namedtuple("Lit", "text pos atom apos at live")
+
+
+def _strip_casts(e):
+    class C(ast.NodeTransformer):
+        def visit_Call(self, n):
+            self.generic_visit(n)
+            if isinstance(n.func, ast.Name) and n.func.id == "cast" and len(n.args) == 2:
+                return n.args[1]
+            return n
+
+    import copy
+    return C().visit(copy.deepcopy(e))
+
+
+def _canon_expanded(t, positive):
+    """FA._literal for an atom that is already expanded (no further expansion: the names left in it belong to
+    the places their values were taken from)."""
+    if isinstance(t, ast.Compare) and len(t.ops) == 1:
+        op = t.ops[0]
+        neg = {ast.IsNot: ast.Is, ast.NotEq: ast.Eq, ast.NotIn: ast.In}
+        if type(op) in neg:
+            op = neg[type(op)]()
+            positive = not positive
+        lt, rt = A.norm(_strip_casts(t.left)), A.norm(_strip_casts(t.comparators[0]))
+        if isinstance(op, ast.Eq) and rt < lt:
+            lt, rt = rt, lt
+        sym = {ast.Is: "is", ast.Eq: "==", ast.In: "in", ast.Lt: "<", ast.Gt: ">", ast.LtE: "<=", ast.GtE: ">="}.get(type(op), type(op).__name__)
+        return ("%s %s %s" % (lt, sym, rt), positive)
+    return (A.norm(_strip_casts(t)), positive)
+
+
+def cases(fa, test, node_id, positive, _expanded=False):
+    """The ways a branch test can come out `positive`: a list of literal lists (disjunctive normal form,
+    short-circuit order kept).  `a and b` taken false is `not a` | `a and not b`; a disjunction taken true
+    likewise; negations are pushed inward; a local that holds a boolean combination / comparison
+    (`missing = key not in own`) is opened up."""
+    t = test
+    if isinstance(t, ast.UnaryOp) and isinstance(t.op, ast.Not):
+        return cases(fa, t.operand, node_id, not positive, _expanded)
+    if isinstance(t, ast.BoolOp):
+        conj = (isinstance(t.op, ast.And) and positive) or (isinstance(t.op, ast.Or) and not positive)
+        if conj:
+            out = [[]]
+            for v in t.values:
+                out = [p + c for p in out for c in cases(fa, v, node_id, positive, _expanded)]
+            return out
+        out, prefix = [], [[]]
+        for v in t.values:
+            out += [p + c for p in prefix for c in cases(fa, v, node_id, positive, _expanded)]
+            prefix = [p + c for p in prefix for c in cases(fa, v, node_id, not positive, _expanded)]
+        return out
+    if isinstance(t, ast.NamedExpr):
+        # `(p := e)` tests e
+        return cases(fa, t.value, node_id, positive, _expanded)
+    if _expanded:
+        (txt, pos) = _canon_expanded(t, positive)
+        return [[Lit(txt, pos, t, positive, node_id, True)]]
+    if isinstance(t, ast.Name):
+        e = fa.expand(t, node_id)
+        if isinstance(e, (ast.BoolOp, ast.Compare)) or (isinstance(e, ast.UnaryOp) and isinstance(e.op, ast.Not)):
+            return cases(fa, e, node_id, positive, True)
+    (txt, pos) = fa._literal(t, node_id, positive)
+    return [[Lit(txt, pos, t, positive, node_id, True)]]
+
+
+def split_ifexp(fa, e, node_id):
+    """A value with its conditional expressions decided: [(literals, expression without IfExp)]."""
+    import copy
+    first = None
+    todo = [e]
+    while todo and first is None:
+        x = todo.pop(0)
+        if isinstance(x, ast.IfExp):
+            first = x
+            break
+        if isinstance(x, (ast.Lambda, ast.ListComp, ast.SetComp, ast.DictComp, ast.GeneratorExp)):
+            continue
+        todo += list(ast.iter_child_nodes(x))
+    if first is None:
+        return [([], e)]
+    out = []
+    for pol in (True, False):
+        class R(ast.NodeTransformer):
+            def visit_IfExp(self, n):
+                if n is first:
+                    return n.body if pol else n.orelse
+                return self.generic_visit(n)
+        e2 = first.body if (e is first and pol) else first.orelse if e is first else R().visit(_shallow_copy(e, first))
+        for c in cases(fa, first.test, node_id, pol):
+            for (l2, e3) in split_ifexp(fa, e2, node_id):
+                out.append((c + l2, e3))
+    return out
+
+
+def _shallow_copy(e, keep):
+    """Copy of `e` that shares the subtree `keep` (so that it can be found by identity in the copy)."""
+    import copy
+    if e is keep:
+        return e
+    if not isinstance(e, ast.AST):
+        return e
+    new = copy.copy(e)
+    for f, v in ast.iter_fields(e):
+        if isinstance(v, list):
+            setattr(new, f, [_shallow_copy(x, keep) for x in v])
+        elif isinstance(v, ast.AST):
+            setattr(new, f, _shallow_copy(v, keep))
+    return new
+
+
+def consistent(lits):
+    """No live literal is stated with both polarities."""
+    have = {(l.text, l.pos) for l in lits if l.live}
+    return not any((t, not p) in have for (t, p) in have)
+
+
+def walk(fa, targets, avoid=(), cap=20000):
+    """Paths of the function from its entry to any node of `targets`, over normal (non-exception) edges:
+    [(target node id, literals, trail of node ids before the target)].  A loop is taken zero times or once
+    (its head may be passed twice, the second time only to leave).  Branch tests contribute literals
+    (`cases`); loop tests do not.  Contradictory paths are dropped; a literal goes stale (live=False) once a
+    name it mentions is assigned again.  Nodes in `avoid` are not entered.
+    Raises AnalysisError when there are more than `cap` paths."""
+    from ..loader import AnalysisError
+    cfg = fa.cfg
+    want, avoid = set(targets), set(avoid)
+    out = []
+
+    def is_loop_head(nd):
+        if nd.kind == "for":
+            return True
+        return nd.kind == "test" and isinstance(fa.pm.get(nd.ast), ast.While) and fa.pm.get(nd.ast).test is nd.ast
+
+    def assigned(nd):
+        """Names / attribute texts (re)bound by the node."""
+        st, tg = nd.ast, []
+        if nd.kind == "for":
+            tg = [st.target]
+        elif nd.kind == "with":
+            tg = [i.optional_vars for i in st.items if i.optional_vars is not None]
+        elif nd.kind == "stmt" and isinstance(st, ast.Assign):
+            tg = list(st.targets)
+        elif nd.kind == "stmt" and isinstance(st, (ast.AugAssign, ast.AnnAssign)):
+            tg = [st.target]
+        elif nd.kind == "stmt" and isinstance(st, ast.Delete):
+            tg = list(st.targets)
+        out = set()
+        for t in tg:
+            for x in ast.walk(t):
+                if isinstance(x, ast.Name) and isinstance(x.ctx, (ast.Store, ast.Del)):
+                    out.add(x.id)
+                elif isinstance(x, ast.Attribute) and isinstance(x.ctx, (ast.Store, ast.Del)):
+                    out.add(A.norm(x))
+        return out
+
+    def mentions(l, names):
+        for x in ast.walk(l.atom):
+            if isinstance(x, ast.Name) and x.id in names:
+                return True
+            if isinstance(x, ast.Attribute) and A.norm(x) in names:
+                return True
+        return False
+
+    def dfs(n, visits, lits, trail):
+        if len(out) > cap:
+            return
+        if n in want:
+            out.append((n, tuple(lits), tuple(trail)))
+            return
+        nd = cfg.node(n)
+        names = assigned(nd)
+        if names:
+            lits = [l._replace(live=False) if l.live and mentions(l, names) else l for l in lits]
+        loop = is_loop_head(nd)
+        second = visits.get(n, 0) >= 1
+        visits[n] = visits.get(n, 0) + 1
+        trail.append(n)
+        for (d, l) in cfg.succ[n]:
+            if l == "exc" or d in avoid:
+                continue
+            if loop and second and l == "T":
+                continue
+            dn = cfg.node(d)
+            seen = visits.get(d, 0)
+            if seen and not (is_loop_head(dn) and seen < 2):
+                continue
+            alts = [[]]
+            if nd.kind == "test" and l in ("T", "F") and not loop:
+                memo = fa.__dict__.setdefault("_pm_cases", {})
+                if (n, l) not in memo:
+                    memo[(n, l)] = cases(fa, nd.ast, n, l == "T")
+                alts = memo[(n, l)]
+            for add in alts:
+                have = {(x.text, x.pos) for x in lits if x.live}
+                if any((a.text, not a.pos) in have for a in add):
+                    continue
+                # a case may contradict itself (`x and not x`)
+                mine = {(a.text, a.pos) for a in add}
+                if any((t_, not p_) in mine for (t_, p_) in mine):
+                    continue
+                dfs(d, visits, lits + [a for a in add if (a.text, a.pos) not in have], trail)
+        trail.pop()
+        visits[n] -= 1
+
+    dfs(cfg.entry, {}, [], [])
+    if len(out) > cap:
+        raise AnalysisError("%s: more than %d paths" % (fa.qual, cap))
+    return out
+
+
+def walrus_bindings(fa, trail):
+    """{name: value} bound by `(name := value)` inside the branch tests a path passed (the dataflow only
+    sees those of simple statements)."""
+    out = {}
+    for i in trail:
+        nd = fa.cfg.node(i)
+        if nd.kind == "test" and nd.ast is not None:
+            for x in A.walk_local(nd.ast):
+                if isinstance(x, ast.NamedExpr) and isinstance(x.target, ast.Name):
+                    out[x.target.id] = x.value
+    return out
